@@ -79,6 +79,9 @@ type dmpSnap struct {
 	Cons   []altSnap  `json:"considered"`
 	NCons  []altSnap  `json:"notConsidered"`
 	Params paramView  `json:"params"`
+	// the weights / k the REQUEST configures, when this snapshot is what the first stage received: importances are then
+	// computed with them, not with whatever the method made of them while parsing
+	ReqW map[string]float64 `json:"-"`
 }
 
 func snapAlts(as []model.AlternativeWithCriteria) []altSnap {
